@@ -292,9 +292,10 @@ def task_uniform_ce() -> List[Dict[str, Any]]:
         V, B = int(model.get("vocab", 5)), min(int(model.get("batch", 3)), 64)
         x = torch.zeros(B, V, dtype=torch.float64, requires_grad=True)
         t = torch.randint(0, V, (B,))
-        U.cross_entropy(x, t, reduction="sum").backward()
+        mult = float(model.get("mult", 1.0))
+        U.cross_entropy(x, t, reduction="sum", mult=mult).backward()
         rms = x.grad.pow(2).mean().sqrt().item()
-        return abs(rms - 1) > 1e-9, f"uniform logits, vocab={V}: logit-gradient RMS = {rms!r}"
+        return abs(rms - 1) > 1e-9, f"uniform logits, vocab={V}, mult={mult!r}: logit-gradient RMS = {rms!r}"
 
     return discharge("C04", "cross_entropy/uniform-logits", h, rp, 30, skip_definedness=True)
 
